@@ -170,7 +170,7 @@ func runIRChecks(c *Ctx, wf, domExact bool, maxBlocks int) {
 			continue
 		}
 		seen[key] = true
-		dir := filepath.Join(VerifDir, "replays", c.Spec.ID, fmt.Sprintf("%x", hashStr(key))[:12])
+		dir := filepath.Join(OutDir, "replays", c.Spec.ID, fmt.Sprintf("%x", hashStr(key))[:12])
 		os.MkdirAll(dir, 0o755)
 		var all []string
 		for _, g := range findings {
